@@ -136,7 +136,9 @@ func process2EncodeString(obj any, mergeFrom *Document, mergeFromDocs []*Documen
 			return nil, fmt.Errorf("$encode: %s: %w", v, ErrInvalidArguments)
 		}
 
-		obj2 := fmt.Sprintf("%v", obj)
+		// Encode the value the subtree denotes: "$$" is the escape for a
+		// literal "$", and the final unescape cannot reach into the encoding.
+		obj2 := fmt.Sprintf("%v", finalizeOutput(obj))
 		return base64.StdEncoding.EncodeToString([]byte(obj2)), nil
 
 	case "flags":
@@ -211,7 +213,7 @@ func process2EncodeString(obj any, mergeFrom *Document, mergeFromDocs []*Documen
 		}
 
 		sh := sha256.New()
-		sh.Write([]byte(fmt.Sprintf("%v", obj)))
+		sh.Write([]byte(fmt.Sprintf("%v", finalizeOutput(obj))))
 		return hex.EncodeToString(sh.Sum(nil)), nil
 
 	case "tolist":
